@@ -10,10 +10,14 @@ open UtpVerif.Model UtpVerif.Model.VSock UtpVerif.Gen UtpVerif.Lemmas.Segments U
 theorem constants_pinned : SYNACK_RESEND_INTERNAL = 200 * 1000000 ∧ TYPE_ST_FIN = 1 ∧ TYPE_ST_STATE = 2 ∧
     TYPE_ST_RESET = 3 ∧ TYPE_ST_SYN = 4 ∧ TYPE_ST_DATA = 0 := by decide
 
-/-- **Closing on its own initiative**: the FIN takes the next sequence number (the one following
-everything segmented so far) and the counter moves past it. -/
+/-- **Closing on its own initiative**: the FIN takes the sequence number following the last queued data segment
+(`snd_una + len`; `poll` calls this only when every queued segment has been transmitted and nothing is
+unsegmented), and the counter moves past it. Until D26 this theorem said "the FIN takes `seq_nr`", which is what the
+code did and NOT the number after the last segment while segments are being re-sent after an RTO. -/
 theorem transition_assigns_next_seq (v : VSock) (h : v.state = .established ∨ v.state = .synReceived ∨ ∃ n, v.state = .synAckSent n) :
-    v.transitionToFinWait1.state = .finWait1 v.seqNr ∧ v.transitionToFinWait1.seqNr = wadd v.seqNr 1 := by
+    v.transitionToFinWait1.state = .finWait1 (wadd v.segs.sndUna (v.segs.segs.length % 65536)) ∧
+    v.transitionToFinWait1.seqNr = wadd (wadd v.segs.sndUna (v.segs.segs.length % 65536)) 1 ∧
+    v.transitionToFinWait1.segs = v.segs := by
   unfold transitionToFinWait1
   rcases h with h | h | ⟨n, h⟩ <;> simp [h]
 
